@@ -518,11 +518,15 @@ def s_if(b: MB, depth=0):
             nodes.append(h.make_node("Add", [w, w2], [w3]))  # foldable inside the branch
             nodes.append(h.make_node("Add", [x.name, w3], [o]))
             b.tag("branch_fold")
-        elif rr < 0.75:
+        elif rr < 0.68:
             t = b.fresh("bt")
             nodes.append(h.make_node("Neg", [x.name], [t]))
             nodes.append(h.make_node("Identity", [t], [o]))  # output alias inside a subgraph
             b.tag("branch_alias")
+        elif rr < 0.75:
+            # the branch returns an alias of an *outer* value: the output must not be replaced across graphs
+            nodes.append(h.make_node("Identity", [x.name], [o]))
+            b.tag("branch_alias_outer")
         elif rr < 0.9:
             oc = b.pick(lambda v: is_f(v) and v.const and v.shape in ([], [1]))
             if oc is None:
@@ -578,10 +582,16 @@ def s_gates(b: MB):
         s = b.node("Shape", [v], TP.INT64, [2], const=False)
         s.shapeval = True
         b.tag("gate_nondeterministic")
-    else:
+    elif r < 0.9:
         a = b.const(b.rand_array(TP.INT64, [3]))
-        b.node("Neg", [a], TP.INT64, [3], domain="") if False else b.node("Neg", [a], TP.INT64, [3])
+        b.node("Neg", [a], TP.INT64, [3])
         b.tag("const_unary")
+    else:
+        # all-constant node with an absent optional operand in the middle: Clip(c, <none>, hi)
+        a = b.const(b.rand_array(TP.FLOAT, [4]))
+        hi = b.const(np.array(1.25, dtype=np.float32))
+        b.node("Clip", [a, "", hi], TP.FLOAT, [4], const=True)
+        b.tag("const_optional_gap")
 
 
 def s_init_input(b: MB):
@@ -595,10 +605,17 @@ def s_init_input(b: MB):
     if x is not None:
         b.node("Add", [x, v], TP.FLOAT, x.shape)
     r = b.rng.random()
-    if r < 0.25:
+    if r < 0.2:
         b.node("Cast", [w], TP.FLOAT, shape, const=False, to=TP.FLOAT)
         b.tag("initinput_cast")
-    elif r < 0.6:
+    elif r < 0.4:
+        # an *optional* operand that is an overridable default: without the graph-input guard the node would be
+        # evaluated with that operand missing
+        lo = b.add_init(np.array(1.0, dtype=np.float32), as_input=True)
+        cc = b.const(b.rand_array(TP.FLOAT, [3]))
+        b.node("Clip", [cc, lo], TP.FLOAT, [3], const=False)
+        b.tag("initinput_optional_operand")
+    elif r < 0.7:
         # an overridable default at a position whose *value* an evaluator would like to read (C04-D1, fixed):
         # AVOID C04-D6: the initializer-input keeps a consumer that is not replaced (Reshape/Expand/Dropout stay)
         x2 = b.pick(lambda u: dyn_f(u) and u.static() and len(u.shape) >= 1 and u.numel() > 0)
@@ -677,6 +694,13 @@ def finish(b: MB):
     if len(outs) > 7:
         rng.shuffle(outs)
         outs = outs[:7]
+    if rng.random() < 0.15:
+        # an initializer that is itself a graph output (it must survive even when its consumers are folded away)
+        init_vals = [v for v in b.vals if v.kind == "tensor" and v.const and any(i.name == v.name for i in b.inits)
+                     and v.name in b.consumed and v.name not in in_names]
+        if init_vals:
+            outs.append(rng.choice(init_vals))
+            b.tag("initializer_as_output")
     gouts = [h.make_tensor_value_info(v.name, v.dt, None) for v in outs]
     gins = [h.make_tensor_value_info(n, dt, shape) for n, dt, shape in b.inputs]
     g = h.make_graph(b.nodes, "g", gins, gouts, initializer=b.inits)
